@@ -168,7 +168,7 @@ Definition alloc_reuse (k : nat) : id := 1000 + Z.of_nat (Nat.modulo k 2).
 (* an allocator that never reuses an identity during one encoding *)
 Definition alloc_distinct (k : nat) : id := 1000 + Z.of_nat k.
 
-Lemma alloc_distinct_fresh : alloc_fresh alloc_distinct h_two_actions.
+Lemma alloc_distinct_fresh : tmp_ids_fresh alloc_distinct h_two_actions.
 Proof.
   split.
   - intro k. unfold alloc_distinct.
